@@ -308,8 +308,13 @@ pub fn probe_case(rng: &mut Rng, w: &World, stats: &mut Stats) -> anyhow::Result
     let ns = w.ns_id();
     let mut replica = ts.s().open_replica(&ns)?;
     let first = verif::store_get_first(&mut replica)?;
+    let foreign_ids: Vec<RecordIdentifier> = foreign.iter().map(|e| e.entry().id().clone()).collect();
     let mk_id = |rng: &mut Rng| -> RecordIdentifier {
-        // ids of held entries, neighbours of them, and arbitrary (author, key) pairs incl. unknown authors
+        // ids of held entries, neighbours of them, and arbitrary (author, key) pairs incl. unknown authors;
+        // a peer chooses the range ends freely: also ids that belong to another document of the store
+        if !foreign_ids.is_empty() && rng.chance(1, 6) {
+            return rng.pick(&foreign_ids).clone();
+        }
         match rng.below(4) {
             0 if !all.is_empty() => rng.pick(&all).entry().id().clone(),
             1 => {
